@@ -212,6 +212,19 @@ class HFL(Harness):
         if noise:
             lens["S"] = fl.S.shape[0]
         out.ob("arrays_same_length", len(set(lens.values())) == 1 and fl.X.shape[0] >= Xn1 + 1)
+        # the representation invariant assumed for the pre-state is re-established: rows beyond Xn are blank
+        blank = []
+        for nm in ("X", "X_orig", "Y", "Y_orig", "S"):
+            a = getattr(fl, nm, None)
+            if a is None:
+                continue
+            a = np.asarray(_raw(a))
+            for v in a[Xn1 + 1:].ravel():
+                blank.append(isinstance(v, (float, np.floating)) and math.isnan(v))
+        ne_ = np.asarray(_raw(fl.n_evals))
+        blank += [(not isinstance(v, SV)) and float(v) == 0.0 for v in ne_[Xn1 + 1:].ravel()]
+        blank += [not bool(v) for v in fl.X_flag[Xn1 + 1:]]
+        out.ob("unused_rows_stay_blank", all(blank))
         xo_exp = sym_array(eng, "xo", (1, D))[0] if transform else x
         merged_mode = noise and (he or op == "add")  # an SD accompanies the value -> merge path enabled
         if not record:
